@@ -100,7 +100,8 @@ def run(oc, tier, seed):
                "forms with two-digit years 00-99, 1-6 body words over all word forms with look-alikes over-weighted, 0-3 "
                "continuation lines with bullets and property bullets, in-block comments; compared: note count/order, kind, "
                "priority, body, line, ZID, create and modify date (spec), and every field against the listener model on the "
-               "exported tree; non-trivial = page has >= 2 notes or a multi-line item")
+               "exported tree; (c) abstract pages of the page theorem (sections nested to H4, every item form): valid_pageb holds, "
+               "tree_of_page == the ANTLR tree, spec_page == the compiled notes; non-trivial = page has >= 2 notes or a multi-line item")
     pages = one_item_pages()
     pages += [pagegen.gen_page(rng) for _ in range(n)]
     texts = [pagegen.render(p) for p in pages]
@@ -126,6 +127,12 @@ def run(oc, tier, seed):
             break
     oc.exhaustive = False
     oc.count("one_item_pages", len(one_item_pages()))
+    # (c) the domain of the page theorem: hypothesis, parse tree and compiled notes on generated abstract pages
+    if not any(f[3] is None for f in oc.spec_fail) and not oc.corr_mismatch:
+        from harness import pagetie
+        pool2 = lib.pool()
+        pagetie.run(eng, pool2, rng, oc, 120 if tier == "quick" else 3000, TODAY, "C01")
+        pool2.close()
     eng.close()
 
 
